@@ -293,16 +293,20 @@ Fixpoint get_prefix_walk (t : node) : walk (option (list Z * bool)) :=
    prefix.go:577-581 newBmPrefix gives up (nil) when a rune lies beyond U+FFFF.
    (Under CaseInsensitive newBmPrefix lower-cases the pattern, prefix.go:420-429; not modelled: the bit is
    never set on a literal of a real tree, see [no_ci_lit].) *)
-Definition bm_prefix (t : node) : option (list Z * bool) :=
+(* writer.go:150-160: the literal is cut to MaxPrefixSize runes: its head for a left-to-right pattern, its
+   tail for a right-to-left one (a right-to-left scan is positioned by the END of the literal) *)
+Definition bm_prefix_dir (rtl : bool) (t : node) : option (list Z * bool) :=
   match (match get_prefix_walk t with WDone z => z | WSkip => None end) with
   | Some (s, ci) =>
       match s with
       | [] => None
-      | _ => let s' := firstn (Z.to_nat MAX_PREFIX_SIZE) s in
+      | _ => let k := Z.to_nat MAX_PREFIX_SIZE in
+             let s' := if rtl then skipn (length s - k) s else firstn k s in
              if existsb (fun c => 65535 <? c) s' then None else Some (s', ci)
       end
   | None => None
   end.
+Definition bm_prefix (t : node) : option (list Z * bool) := bm_prefix_dir false t.
 
 (* ---------- findLeadingPositiveLookahead, prefixanalyzer.go:1454 ---------- *)
 (* (child of the lookahead, keepLooking).  Nodes that carry no option word in Tree.node (anchors, Empty,
